@@ -371,7 +371,7 @@ func (r *Run) explore(g Group, h HarnessSpec, fn *ssa.Function) *HarnessResult {
 		}
 	}
 	if h.TimeoutMS == 0 {
-		h.TimeoutMS = 10000
+		h.TimeoutMS = 30000
 	}
 	known := map[string]bool{}
 	for id := range r.known {
